@@ -188,6 +188,15 @@ def init_stmts(name, n, annotate=True):
     lit = literal(n)
     if lit is not None:
         return ["%s%s = %s" % (name, ann, lit)]
+    if n.k == "float" and (n.v != n.v or n.v in (math.inf, -math.inf)):
+        # no literal denotes these: inf = 1e300 * 1e300, -inf = 0 - inf, NaN = inf - inf (IEEE-754, no failure)
+        big = literal(Num("float", 1e300))
+        lines = ["%s_h%s = %s" % (name, ann, big), "%s_i%s = %s_h * %s_h" % (name, ann, name, name)]
+        if n.v != n.v:
+            return lines + ["%s%s = %s_i - %s_i" % (name, ann, name, name)]
+        if n.v > 0:
+            return lines + ["%s%s = %s_i" % (name, ann, name)]
+        return lines + ["%s_z%s = 0.0" % (name, ann), "%s%s = %s_z - %s_i" % (name, ann, name, name)]
     if n.k == "float":
         zero = "0.0"
         if n.v == 0:   # -0.0
@@ -215,8 +224,8 @@ INT_QUICK = [-2 ** 31, -2 ** 31 + 1, -2, -1, 0, 1, 2, 31, 32, 65536, 2 ** 31 - 1
 BIG_FULL = [-2 ** 127, -2 ** 127 + 1, -2 ** 126, -2 ** 64, -2 ** 63 - 1, -2 ** 63, -2 ** 53 - 1, -2 ** 32, -2 ** 31 - 1, -2 ** 31, -1, 0, 1, 2, 127, 128,
             2 ** 31 - 1, 2 ** 31, 2 ** 32, 2 ** 53, 2 ** 53 + 1, 2 ** 63, 2 ** 64, 2 ** 126, 2 ** 127 - 2, 2 ** 127 - 1]
 BIG_QUICK = [-2 ** 127, -2 ** 127 + 1, -2 ** 63, -2 ** 31 - 1, -1, 0, 1, 2, 127, 128, 2 ** 31, 2 ** 53 + 1, 2 ** 64, 2 ** 127 - 1]
-FLOAT_FULL = [0.0, -0.0, 0.5, -0.5, 1.0, -1.0, 1.5, 2.0, 3.0, 7.25, 2.0 ** 31, 2.0 ** 53, 2.0 ** 53 + 2, 3e9, -3e9, 1e300, -1e300, 1e-300, 0.1, 2147483647.0, 1.7976931348623157e308]
-FLOAT_QUICK = [0.0, 0.5, 1.0, -1.0, 1.5, 3.0, 2.0 ** 53, 3e9, 1e300, 1e-300, 0.1]
+FLOAT_FULL = [0.0, -0.0, 0.5, -0.5, 1.0, -1.0, 1.5, 2.0, 3.0, 7.25, 2.0 ** 31, 2.0 ** 53, 2.0 ** 53 + 2, 3e9, -3e9, 1e300, -1e300, 1e-300, 0.1, 2147483647.0, 1.7976931348623157e308, math.inf, -math.inf, math.nan]
+FLOAT_QUICK = [0.0, 0.5, 1.0, -1.0, 1.5, 3.0, 2.0 ** 53, 3e9, 1e300, 1e-300, 0.1, math.inf, -math.inf, math.nan]
 BYTE_FULL = [0, 1, 2, 7, 8, 127, 128, 254, 255]
 BYTE_QUICK = [0, 1, 2, 7, 128, 255]
 
